@@ -583,14 +583,11 @@ Proof.
     specialize (H2 v Hu). congruence.
 Qed.
 
-Theorem check_attrs_sound ds fs :
-  check_attrs ds fs = true ->
-  forall d, In d ds -> forall present, valid_attr d present = true ->
-    exists f, find_afield fs (ad_name d) = Some f /\ afield_roundtrip f present = Some (effective d present).
+Lemma attr_compat_sound d f present :
+  attr_compat d f = true -> valid_attr d present = true ->
+  afield_roundtrip f present = Some (effective d present).
 Proof.
-  unfold check_attrs. intros H d Hd present Hv. apply andb_true_iff in H as [H _].
-  rewrite forallb_forall in H. specialize (H d Hd).
-  destruct (find_afield fs (ad_name d)) as [f|]; [|discriminate]. exists f. split; [reflexivity|].
+  intros H Hv.
   unfold attr_compat in H. apply andb_true_iff in H as [H Hu]. apply andb_true_iff in H as [_ He].
   unfold afield_roundtrip, effective, valid_attr in *. destruct present as [v|].
   - apply andb_true_iff in Hv as [Hin Hfx]. rewrite <- (enum_eqb_in _ _ v He), Hin. cbn [negb].
@@ -608,4 +605,15 @@ Proof.
       destruct (af_default f) as [x|]; [|discriminate]. apply str_eqb_eq in Hd0. subst. reflexivity.
     + apply andb_true_iff in Hu as [Hu Hd0]. apply andb_true_iff in Hu as [Hu _]. apply negb_true_iff in Hu. rewrite Hu.
       destruct (af_default f) as [x|]; [|discriminate]. apply str_eqb_eq in Hd0. subst. reflexivity.
+Qed.
+
+Theorem check_attrs_sound ds fs :
+  check_attrs ds fs = true ->
+  forall d, In d ds -> forall present, valid_attr d present = true ->
+    exists f, find_afield fs (ad_name d) = Some f /\ afield_roundtrip f present = Some (effective d present).
+Proof.
+  unfold check_attrs. intros H d Hd present Hv. apply andb_true_iff in H as [H _].
+  rewrite forallb_forall in H. specialize (H d Hd).
+  destruct (find_afield fs (ad_name d)) as [f|]; [|discriminate]. exists f. split; [reflexivity|].
+  apply attr_compat_sound; assumption.
 Qed.
